@@ -75,6 +75,9 @@ class _Live:
                     return "err NoTable"
                 (self.table, self.records, self.kw), self.sib = self.sib, (self.table, self.records, self.kw)
                 return "ok"
+            if op == "rmcols":
+                self.table.remove_columns([dec_str(a) for a in args])
+                return "ok"
             if op == "ctorobj":
                 t = PPTable(self.records, fmt_obj=self.table.fmt, header=self.kw.get("header"),
                             footer=self.kw.get("footer"))
@@ -304,6 +307,13 @@ def gen_history(rng, desc):
             ops += ["str", "ctorlast"]
         elif k < 0.70:
             ops.append("ctorobj")
+        elif k < 0.76:
+            # columns removed from the live format object, between two reads of the format
+            gone = [n for n in names + ["no such column"] if rng.random() < 0.4][:max(1, len(names) - 1)]
+            # (on a table whose widths are not negotiated yet: `set ""` makes it so. Removing a break-by column from
+            # a PRINTED table with limits leaves widths negotiated for other visible rows - see the report)
+            ops += ["set " + enc_str("")] + rng.choice([["str"], ["str", "str"], []]) + \
+                   ["rmcols " + " ".join(enc_str(g) for g in gone), "str"]
         elif k < 0.80:
             ops.append("set " + enc_str(rng.choice(["", ";", ";;"])))
         elif k < 0.93:
@@ -447,6 +457,8 @@ def tags(case, replies):
             if ";" in s:
                 yield "str:with-limits"
             yield "str:printed" if printed else "str:fresh"
+        if op == "rmcols":
+            yield "history:columns-removed" + ("-after-print" if printed else "")
         if op in ("setlast", "ctorlast", "set", "ctor", "new", "newobj", "ctorobj") and rep == "ok":
             printed = False
         if op == "swap" and rep == "ok":
@@ -456,7 +468,7 @@ def tags(case, replies):
 
 RULE = ("histories over C12's tables (field names the serialised form can express; user-written field types with "
         "free-text modifiers incl. '/'): new - or newobj: the format built from ReprColumn objects, no parser - then 2-8 of str / print / "
-        "str+setlast / str+ctorlast / ctorobj (fmt_obj=table.fmt) / sib+swap (a second table from the same format "
+        "str+setlast / str+ctorlast / [str, print,] rmcols (table.remove_columns), str / ctorobj (fmt_obj=table.fmt) / sib+swap (a second table from the same format "
         "object with other records, printed and read in either order) / set ''|';'|';;' / set <another well-formed format> / set <malformed>, always "
         "ending with str, print, str, setlast|ctorlast, print, str; tables of 45-80 records with limits at and around "
         "the code's own default pair (taken from the source) fed back through both routes; plus `parse <fmt>` lines (fuzzed and edited format "
